@@ -52,7 +52,7 @@ du_struct = DU + '{struct DiscreteUniform}'
 du_new = Fn(DU + '{impl DiscreteUniform}::new', ret='r', valid='lower <= upper', panics={1: 'REJECT'},
             ensures=['C19.du.new.valid:: lower <= upper', 'C19.du.new.fields:: r.lower == lower && r.upper == upper'])
 du_sample = Fn(DU + '{impl Distribution for DiscreteUniform}::sample', ret='r', inherent=True,
-               requires=['C19.du.inv:: self.lower <= self.upper'],
+               requires=['C19.du.inv:: self.lower <= self.upper', 'C19.du.span:: (self.upper as int) + 1 - (self.lower as int) <= i64::MAX'],
                ensures=['C19.du.sample.range:: exists|k: int| self.lower <= k <= self.upper && r == #[trigger] f_of_int(k) && du_drawn(self.lower, self.upper, k)'])
 
 MACH = 'data@.len() < 0x3fff_ffff'
@@ -84,7 +84,7 @@ shuffle_two = Fn(R + 'shuffle_two', ret='r', valid='arr1@.len() == arr2@.len() &
 
 DIST = 'distributions::'
 sample_n = Fn(DIST + '{trait Distribution1D: Distribution<Output = f64>}::sample_n', ret='r', as_impl='impl DiscreteUniform',
-              requires=['C19.du.inv:: self.lower <= self.upper'],
+              requires=['C19.du.inv:: self.lower <= self.upper', 'C19.du.span:: (self.upper as int) + 1 - (self.lower as int) <= i64::MAX'],
               ensures=['C19.du.sample_n.len:: r.v@.len() == n',
                        'C19.du.sample_n.each:: forall|i: int| 0 <= i < n ==> is_du_value(self.lower, self.upper, #[trigger] r.v@[i])'],
               rewrites=[('(0..n).map(', 'Vector { v: (0..n).map(', 'R26: `ITER.collect()` into a Vector is `Vector { v: ITER.collect::<Vec<f64>>() }` (fingerprint-checked)'),
